@@ -254,7 +254,7 @@ def r_getvar(model, rep):
     else:
         s = sorts[-1]
         key = dict(s.value[3]).get("key")
-        if key is None or key[0] != "lambda" or not key[1].replace(" ", "").endswith(".uid"):
+        if key != ("keyfn", "attr", "uid"):
             ok, msg = False, "result is not sorted by uid (key=%s)" % (T.show(key) if key else None)
         if dict(s.value[3]).get("reverse") not in (None, ("const", False)):
             ok, msg = False, "result is sorted in reverse"
@@ -374,11 +374,10 @@ def r_uid_format(model, rep):
                 if t is None:
                     continue
                 for x in T.walk(t):
-                    if x[0] == "binop" and x[1] == "%" and x[2][0] == "const" and isinstance(x[2][1], str) \
-                            and x[3][0] == "tuple" and len(x[3][1]) == 2:
-                        a, b = x[3][1]
+                    if x[0] == "fmt" and len(x[1]) == 3 and x[1][1][0] == "const":
+                        a, b = x[1][0], x[1][2]
                         if want_a(a) and want_b(b):
-                            sites.append((label, x[2][1], cx.site(ev.lineno)))
+                            sites.append((label, "%%s%s%%s" % x[1][1][1], cx.site(ev.lineno)))
                             return
     v = facts.fctx(model, model.own_method("composeinfo.Variant", "_validate_uid"))
     formats(v, lambda a: T.attr_chain(a) == "self.parent.uid", lambda b: T.attr_chain(b) == "self.id", "Variant._validate_uid")
